@@ -30,6 +30,7 @@ LEVEL_TEXT = (
     "raw values); the error must carry a line inside the offending argument (or the command header), and the command-"
     "line tool must mark exactly that source line. Sampled fault positions, not exhaustive."
 )
+LEVEL_TEXT += ' Added later: a cycle fault (the recursion reported when the model runs is located on a command of the cycle, wherever its consumers stand); a wrong-kind producer that has finished before the run.'
 LEVEL_NOTE = "Tuple-pair line numbers are not asserted (the statement lists commands, arguments and list elements)."
 RULE = (
     "Cases: (lines) abstract program + layout from vcheck/gen/render.py; (history) list of steps (parser index, good or "
